@@ -274,6 +274,13 @@ func (b *builder) build1(v *Val) interface{} {
 		return reflect.ValueOf(b.sub(v, 0))
 	case "rvzero":
 		return reflect.Value{}
+	case "rvfield":
+		// a reflect.Value obtained from an unexported field (CanInterface is false)
+		return reflect.ValueOf(StructA{z: b.sub(v, 0)}).Field(2)
+	case "rvfieldr":
+		// ... of RedactableString type
+		r, _ := b.sub(v, 0).(redact.RedactableString)
+		return reflect.ValueOf(StructB{r: r}).Field(4)
 
 	// ---- method-bearing kinds
 	case "stringer":
